@@ -117,6 +117,8 @@ pub const ALL_READ_VARIANTS: [ReadVariant; 7] = [
 pub enum Op {
     /// the four put variants: (weight, ttl) given or not
     Put { k: K, w: Option<i64>, ttl_ms: Option<u64> },
+    /// get(k) immediately followed by the put: binds 'currently readable' to what a read really returns
+    ProbedPut { k: K, w: Option<i64>, ttl_ms: Option<u64> },
     Upsert { k: K, value: bool, w: Option<i64>, ttl_ms: Option<u64>, remove_ttl: bool },
     Delete { k: K },
     Read { k: K, variant: ReadVariant },
@@ -146,6 +148,7 @@ impl Op {
     pub fn short(&self) -> String {
         match self {
             Op::Put { k, w, ttl_ms } => format!("put({}{}{})", k, w.map(|w| format!(",w={}", w)).unwrap_or_default(), ttl_ms.map(|t| format!(",ttl={}ms", t)).unwrap_or_default()),
+            Op::ProbedPut { k, w, ttl_ms } => format!("get+put({}{}{})", k, w.map(|w| format!(",w={}", w)).unwrap_or_default(), ttl_ms.map(|t| format!(",ttl={}ms", t)).unwrap_or_default()),
             Op::Upsert { k, value, w, ttl_ms, remove_ttl } => format!(
                 "upsert({}{}{}{}{})",
                 k,
@@ -171,11 +174,11 @@ impl Op {
         }
     }
     pub fn is_write(&self) -> bool {
-        matches!(self, Op::Put { .. } | Op::Upsert { .. } | Op::Delete { .. })
+        matches!(self, Op::Put { .. } | Op::ProbedPut { .. } | Op::Upsert { .. } | Op::Delete { .. })
     }
     pub fn key(&self) -> Option<K> {
         match self {
-            Op::Put { k, .. } | Op::Upsert { k, .. } | Op::Delete { k } | Op::Read { k, .. } => Some(*k),
+            Op::Put { k, .. } | Op::ProbedPut { k, .. } | Op::Upsert { k, .. } | Op::Delete { k } | Op::Read { k, .. } => Some(*k),
             _ => None,
         }
     }
@@ -185,6 +188,8 @@ impl Op {
 pub enum Res {
     /// a write: Err (cache shutting down) or an acknowledgement; `sent` tells what was queued, if anything
     Write { err: bool, sent: Option<String>, ack_id: i64, immediate: Option<CommandStatus> },
+    /// result of `ProbedPut`: what the read returned, then the write's result
+    ProbedWrite { read: Option<V>, write: Box<Res> },
     Read(Option<V>),
     MultiRead(Vec<Option<V>>),
     Status(Vec<(usize, CommandStatus)>),
@@ -232,6 +237,7 @@ pub fn res_short(r: &Res) -> String {
                 format!("immediate:{:?}", immediate)
             }
         }
+        Res::ProbedWrite { read, write } => format!("read={:?};{}", read, res_short(write)),
         Res::Read(v) => format!("{:?}", v),
         Res::MultiRead(v) => format!("{:?}", v),
         Res::Status(s) => format!("{:?}", s),
@@ -427,6 +433,21 @@ impl ThreadCtx {
                     (Some(w), Some(t)) => cache.put_with_weight_and_ttl(*k, v, *w, ttl_of(*t)),
                 })
                 .map(|r| self.write_res(idx, mark, r))
+            }
+            Op::ProbedPut { k, w, ttl_ms } => {
+                let v = token(thread, idx, *k);
+                value = Some(v);
+                catch(|| {
+                    let read = cache.get(k);
+                    let r = match (w, ttl_ms) {
+                        (None, None) => cache.put(*k, v),
+                        (Some(w), None) => cache.put_with_weight(*k, v, *w),
+                        (None, Some(t)) => cache.put_with_ttl(*k, v, ttl_of(*t)),
+                        (Some(w), Some(t)) => cache.put_with_weight_and_ttl(*k, v, *w, ttl_of(*t)),
+                    };
+                    (read, r)
+                })
+                .map(|(read, r)| Res::ProbedWrite { read, write: Box::new(self.write_res(idx, mark, r)) })
             }
             Op::Upsert { k, value: has_value, w, ttl_ms, remove_ttl } => {
                 let v = token(thread, idx, *k);
@@ -670,8 +691,17 @@ pub fn accounting_violations(o: &Obs) -> Vec<String> {
         }
     }
     for (k, _v, id, _e, _d) in o.store.iter() {
-        if !o.weights.iter().any(|w| w.0 == *id) {
-            out.push(format!("the store holds key {} under id #{} but no weight is charged for it", k, id));
+        match o.weights.iter().find(|w| w.0 == *id) {
+            None => out.push(format!("the store holds key {} under id #{} but no weight is charged for it", k, id)),
+            Some(w) if w.1 != *k => out.push(format!("the store holds key {} under id #{} but that id is charged for key {}", k, id, w.1)),
+            _ => {}
+        }
+    }
+    let mut ids: Vec<u64> = o.store.iter().map(|e| e.2).collect();
+    ids.sort();
+    for w in ids.windows(2) {
+        if w[0] == w[1] {
+            out.push(format!("two stored keys share the key id #{}", w[0]));
         }
     }
     out
